@@ -118,11 +118,20 @@ Proof.
   - (* ODFx *) unfold dctx_fx, dctx_fx_gen. cbv zeta. destruct (_ && _ && _); apply d_forgot_intro.
     + unfold dd_fx_pre, dd_stale_select. apply forgot_select, forgot_with_last, Hf.
     + apply (forgot_stream_header _ _ _ k Hf).
-  - (* ODDec *) revert E. unfold dctx_dec_stream, dctx_dec_stream_gen.
+  - (* ODDec *) revert E. unfold dctx_dec_stream, dctx_dec_stream_disp. destruct (_ && _).
+    { unfold dctx_dec_stream_once. intro E; injection E as <- _. apply d_forgot_intro.
+      assert (A : x_forgot (dd_fx_pre false (get_d w o0) (frame_fid f)) k) by (unfold dd_fx_pre, dd_stale_select; apply forgot_select, forgot_with_last, Hf).
+      destruct (dkind_matches _ f); exact A. }
+    unfold dctx_dec_stream_gen.
     pose proof (forgot_stream_header (get_d w o0) (d_format (get_d w o0) =? 0) (frame_fid f) k Hf) as [A _].
     destruct (dd_stream_header false (get_d w o0) (d_format (get_d w o0) =? 0) (frame_fid f)) as [x u]. cbn [fst] in A.
     intro E; injection E as <- _. exact A.
-  - (* ODDec1 *) revert E. unfold dctx_dec_oneshot, dctx_dec_oneshot_gen.
+  - (* ODDec1 *) revert E. unfold dctx_dec_oneshot, dctx_dec_oneshot_disp. destruct (_ =? 1).
+    { unfold dctx_dec_oneshot_once. destruct (negb _); [intro E; injection E as <- _; exact Hf|].
+      pose proof (forgot_oneshot_frames false (d_refMultipleDDicts (get_d w o0) =? 1) fs (d_dict (get_d w o0)) (dd_kind (d_dict (get_d w o0))) k Hf) as B.
+      destruct (dd_oneshot_frames _ _ _ _ fs) as [x1 ok]. cbn [fst] in B.
+      intro E; injection E as <- _. destruct ok; exact B. }
+    unfold dctx_dec_oneshot_gen.
     pose proof (forgot_get _ k Hf) as [A _]. destruct (dd_get (d_dict (get_d w o0))) as [x0 start]. cbn [fst] in A.
     destruct (negb _); [intro E; injection E as <- _; exact A|].
     pose proof (forgot_oneshot_frames false (d_refMultipleDDicts (get_d w o0) =? 1) fs x0 start k A) as B.
@@ -289,11 +298,15 @@ Proof.
     + unfold dd_fx_pre, dd_stale_select. cbn [d_dict dctx_set_stage dctx_set_dict].
       rewrite (select_keeps_loaded _ _ _ k (loaded_with_last _ k _ Hh)). exact Hh.
     + exact (proj1 (loaded_stream_header _ _ _ k Hh)).
-  - revert E. unfold dctx_dec_stream, dctx_dec_stream_gen.
+  - revert E. unfold dctx_dec_stream.
+    rewrite stream_disp_not_once by (unfold dd_fx_pre, dd_stale_select; rewrite (select_keeps_loaded _ _ _ k (loaded_with_last _ k _ Hh));
+                                     cbn [dd_with_last dd_uses]; rewrite (proj1 Hh); discriminate).
+    unfold dctx_dec_stream_gen.
     pose proof (proj1 (loaded_stream_header (get_d w o0) (d_format (get_d w o0) =? 0) (frame_fid f) k Hh)) as A.
     destruct (dd_stream_header false (get_d w o0) (d_format (get_d w o0) =? 0) (frame_fid f)) as [x u]. cbn [fst] in A.
     intro E; injection E as <- _. exact A.
-  - revert E. unfold dctx_dec_oneshot, dctx_dec_oneshot_gen. pose proof Hh as [Hu Hk].
+  - revert E. pose proof Hh as [Hu Hk]. unfold dctx_dec_oneshot. rewrite oneshot_disp_not_once by (rewrite Hu; discriminate).
+    unfold dctx_dec_oneshot_gen.
     rewrite (dd_get_indef _ Hu). cbv beta iota.
     destruct (negb _); [intro E; injection E as <- _; exact Hh|].
     pose proof (loaded_oneshot_frames false (d_refMultipleDDicts (get_d w o0) =? 1) fs (d_dict (get_d w o0)) (dd_kind (d_dict (get_d w o0))) k Hh) as B.
@@ -335,3 +348,88 @@ Lemma selection_destroyed_loaded_dictionary_refuted_l :
   /\ d_loaded r3_loaded2 2 /\ dd_set (d_dict r3_loaded2) = Some [1]
   /\ snd (dctx_dec_stream (fst (dctx_dec_stream r3_loaded2 1)) 2) = Ok.
 Proof. repeat split; vm_compute; reflexivity. Qed.
+
+(* ------------------------------------------------------------------ a single-use dictionary is used up by the frame start that
+   succeeds, not by one that fails (fix b15fdb6): prepared frame G_k streamed (no single-pass shortcut: no content size) *)
+Definition fx_fid (k : Z) : Z := if Z.eqb k 4 then 1 else 0.
+Definition fx_fmt_ok (d : dctx) (k : Z) : bool := Z.eqb (d_format d) (if Z.eqb k 1 then 1 else 0).
+Definition fx_starts (d : dctx) (k : Z) : bool := Z.eqb (fx_fid k) 0 && (fx_window k <=? d_maxWindowSize d).
+
+Lemma fx_single_use_rule_l : forall d k, fx_fmt_ok d k = true -> dd_uses (dd_fx_pre false d (fx_fid k)) = 1 ->
+  let pre := dd_fx_pre false d (fx_fid k) in
+  (fx_starts d k = false -> d_dict (dctx_fx d k) = pre)
+  /\ (fx_starts d k = true -> d_dict (dctx_fx d k) = mkDD 0 (dd_kind pre) (dd_set pre) (dd_last pre))
+  /\ d_stage (dctx_fx d k) = S_init.
+Proof.
+  intros d k Hf Hu pre. unfold dctx_fx, dctx_fx_gen. cbv zeta. fold (fx_fid k) (fx_fmt_ok d k) (fx_starts d k). fold pre.
+  rewrite Hf. subst pre. rewrite Hu. cbn [Z.eqb Pos.eqb andb].
+  destruct (fx_starts d k); cbn [negb].
+  - split; [intro H; discriminate H|]. split; [|reflexivity]. intros _.
+    cbn [d_dict dctx_set_stage dctx_set_dict]. unfold dd_stream_header. cbn [negb]. fold (dd_fx_pre false d (fx_fid k)).
+    unfold dd_get. rewrite Hu. reflexivity.
+  - split; [intros _; reflexivity|]. split; [intro H; discriminate H | reflexivity].
+Qed.
+
+(* the retry: a prefix referenced, a frame whose window exceeds the limit refused, the limit raised, the same frame again *)
+Example ex_prefix_survives_failed_start :
+  let d0 := fst (dctx_refprefix (fst (dctx_set_max_window_size (dctx_new false) 1024)) 1) in
+  let d1 := dctx_fx d0 2 in
+  let d2 := dctx_fx (fst (dctx_set_max_window_size d1 4096)) 2 in
+  dd_uses (d_dict d1) = 1 /\ dd_kind (d_dict d1) = DK_pfx 1 /\ dd_uses (d_dict d2) = 0.
+Proof. vm_compute. repeat split. Qed.
+
+(* ------------------------------------------------------------------ the same rule on the single-call path (fix b87b37f):
+   ZSTD_decompressDCtx with a pending prefix uses it up exactly when the call succeeds *)
+Definition not_ref (x : ddicts) : Prop := forall j, dd_kind x <> DK_ref j.
+
+Lemma select_not_ref : forall m x fid, not_ref x -> dd_select m x fid = x.
+Proof.
+  intros m x fid H. unfold dd_select, dd_selectable. destruct (dd_set x); [|reflexivity].
+  destruct (dd_kind x) eqn:Ek; try (exfalso; eapply H; exact Ek); cbv iota; rewrite andb_false_r; rewrite andb_false_r; reflexivity.
+Qed.
+
+Lemma oneshot_frames_not_ref : forall st m fs x start, not_ref x ->
+  dd_uses (fst (dd_oneshot_frames st m x start fs)) = dd_uses x
+  /\ dd_kind (fst (dd_oneshot_frames st m x start fs)) = dd_kind x
+  /\ dd_set (fst (dd_oneshot_frames st m x start fs)) = dd_set x.
+Proof.
+  induction fs as [|f fs IH]; intros x start H; cbn [dd_oneshot_frames fst]; [auto|].
+  unfold dd_oneshot_frame. rewrite (select_not_ref m (dd_with_last x (frame_fid f)) (frame_fid f) H).
+  destruct (dkind_matches _ f); [|cbn [fst]; auto].
+  destruct (IH (dd_with_last x (frame_fid f)) (if
+      match dd_set x with Some l => m && dd_preselectable x && existsb (Z.eqb (frame_fid f)) l | None => false end
+      && negb st && match start with DK_none => false | _ => true end then DK_ref (frame_fid f) else start) H) as (A & B & C).
+  auto.
+Qed.
+
+Lemma oneshot_single_use_rule_l : forall d fs, dd_uses (d_dict d) = 1 -> not_ref (d_dict d) ->
+  let r := dctx_dec_oneshot d fs in
+  (snd r = Ok -> dd_uses (d_dict (fst r)) = 0)
+  /\ (snd r <> Ok -> dd_uses (d_dict (fst r)) = 1)
+  /\ dd_kind (d_dict (fst r)) = dd_kind (d_dict d) /\ dd_set (d_dict (fst r)) = dd_set (d_dict d) /\ d_stage (fst r) = S_init.
+Proof.
+  intros d fs Hu Hn. cbn zeta. unfold dctx_dec_oneshot, dctx_dec_oneshot_disp. rewrite Hu. cbn [Z.eqb Pos.eqb].
+  unfold dctx_dec_oneshot_once. destruct (negb _).
+  - cbn [fst snd d_dict dctx_set_stage dctx_set_dict dd_with_last dd_uses dd_kind dd_set d_stage].
+    split; [intro H; discriminate H|]. auto.
+  - destruct (oneshot_frames_not_ref false (d_refMultipleDDicts d =? 1) fs (d_dict d) (dd_kind (d_dict d)) Hn) as (A & B & C).
+    destruct (dd_oneshot_frames _ _ _ _ fs) as [x1 ok]. cbn [fst] in A, B, C.
+    destruct ok; cbn [fst snd d_dict dctx_set_stage dctx_set_dict dd_uses dd_kind dd_set d_stage].
+    + split; [reflexivity|]. split; [intro H; contradiction H; reflexivity|]. auto.
+    + split; [intro H; discriminate H|]. split; [intros _; rewrite A; exact Hu|]. auto.
+Qed.
+
+(* ... and on the whole-frame ZSTD_decompressStream call (single-pass shortcut, fix 2f289ec): the three doors share one rule *)
+Lemma stream_single_use_rule_l : forall d f, d_format d = 0 -> dd_uses (dd_fx_pre false d (frame_fid f)) = 1 ->
+  let pre := dd_fx_pre false d (frame_fid f) in
+  let r := dctx_dec_stream d f in
+  (snd r = Ok <-> dkind_matches (dd_kind pre) f = true)
+  /\ (snd r = Ok -> d_dict (fst r) = mkDD 0 (dd_kind pre) (dd_set pre) (dd_last pre))
+  /\ (snd r <> Ok -> d_dict (fst r) = pre)
+  /\ d_stage (fst r) = S_init.
+Proof.
+  intros d f Hf Hu. cbn zeta. unfold dctx_dec_stream, dctx_dec_stream_disp. rewrite Hf, Hu. cbn [Z.eqb Pos.eqb andb].
+  unfold dctx_dec_stream_once. destruct (dkind_matches _ f); cbn [fst snd d_dict dctx_set_stage dctx_set_dict d_stage].
+  - split; [split; reflexivity|]. split; [reflexivity|]. split; [intro H; contradiction H; reflexivity | reflexivity].
+  - split; [split; intro H; discriminate H|]. split; [intro H; discriminate H|]. split; reflexivity.
+Qed.
